@@ -143,14 +143,26 @@ def _run_driver(config, outfile):
         if r.returncode != 0:
             raise ToolError("cargo check (%s) failed; the tree does not compile:\n%s" % (config, r.stdout[-6000:]))
         libs = []
+        bins = []
         for f in os.listdir(out):
             with open(os.path.join(out, f)) as fh:
                 d = json.load(fh)
             if "Rlib" in d.get("crate_types", "") or "Lib" in d.get("crate_types", ""):
                 libs.append(d)
+            elif "Executable" in d.get("crate_types", ""):
+                bins.append(d)
         if len(libs) != 1:
             raise ToolError("expected exactly one fact file for the bindgen library, got %d (the wrapper did not run?)" % len(libs))
         d = libs[0]
+        if config == "cli":
+            # the `bindgen` executable of package bindgen-cli (main.rs): kept beside the library facts
+            if len(bins) != 1:
+                raise ToolError("expected exactly one fact file for the bindgen-cli executable, got %d" % len(bins))
+            tmpb = _bin_path(outfile) + ".tmp%d" % os.getpid()
+            os.makedirs(os.path.dirname(tmpb), exist_ok=True)
+            with open(tmpb, "w") as fh:
+                json.dump(bins[0], fh)
+            os.replace(tmpb, _bin_path(outfile))
         if len(d["fns"]) < MIN_BODIES[config]:
             raise ToolError("fact file holds %d bodies, floor is %d" % (len(d["fns"]), MIN_BODIES[config]))
         tmp = outfile + ".tmp%d" % os.getpid()
@@ -170,6 +182,10 @@ def _run_driver(config, outfile):
                 shutil.rmtree(tmpb, ignore_errors=True)
     finally:
         shutil.rmtree(scratch, ignore_errors=True)
+
+
+def _bin_path(outfile):
+    return outfile[:-len(".json")] + "-bin.json"
 
 
 def _prune(keep):
@@ -196,7 +212,7 @@ def load(config="cli"):
     built = False
     with open(os.path.join(CACHE, ".lock-" + config), "w") as lock:
         fcntl.flock(lock, fcntl.LOCK_EX)
-        if not os.path.exists(path):
+        if not os.path.exists(path) or (config == "cli" and not os.path.exists(_bin_path(path))):
             _run_driver(config, path)
             built = True
             _prune(th)
@@ -208,6 +224,15 @@ def load(config="cli"):
             "bodies": len(facts["fns"]), "adts": len(facts["adts"]), "impls": len(facts["impls"]),
             "facts_wall_s": round(time.time() - t0, 2)}
     return facts, info
+
+
+def load_bin():
+    """Facts of the `bindgen` executable (bindgen-cli/main.rs), produced by the same `cli` run as the library facts."""
+    _, info = load("cli")
+    path = os.path.join(CACHE, info["tree_hash"], "cli-bin.json")
+    with open(path) as fh:
+        facts = json.load(fh)
+    return facts, {"config": "cli-bin", "crate": "bindgen-cli", "tree_hash": info["tree_hash"], "bodies": len(facts["fns"])}
 
 
 def load_file(relpath, crate_name, edition="2021"):
